@@ -1604,8 +1604,6 @@ Definition has_request (r : res (list Exec.row * list event)) (vid : N) (p : str
   | Ok (_, evs) => existsb (fun e => match e with EProp v p' => N.eqb v vid && String.eqb p' p | _ => false end) evs
   | Panic _ => false
   end.
-Definition row_in (r : Sem.row) (l : list Sem.row) : bool :=
-  existsb (fun r' => String.eqb (Run.show_row r) (Run.show_row r')) l.
 
 (* ---- F10: `>=` against a tag yields an upper bound ---- *)
 (* full statement (FALSE of the model, as of the code):
@@ -1655,7 +1653,8 @@ Theorem dynamic_hint_ge_tag_refuted_query :
     holds no_regex GreaterThanOrEqual (ds_prop ds_f10 "Thing" "id" 2) (U64 1) = true /\
     f_mem k (ds_prop ds_f10 "Thing" "id" 2) = false /\
     (* and the row (id = 1, o2 = 2) is a result of the query *)
-    row_in [("id", U64 1); ("o2", U64 2)] (sem no_regex (graph_of_dataset ds_f10) [] q) = true.
+    sem no_regex (graph_of_dataset ds_f10) [] q =
+      [[("id", U64 1); ("o2", U64 2)]; [("id", U64 1); ("o2", U64 1)]; [("id", U64 2); ("o2", U64 2)]].
 Proof. vm_compute. repeat split; reflexivity. Qed.
 
 (* ---- F17: a null tag value panics in Range::with_end / with_start, or in as_slice() for one_of ---- *)
@@ -1719,22 +1718,26 @@ Lemma comp_of_vid_subcomp top : forall vid c, comp_of_vid top vid = Some c -> su
 Proof.
   induction top as [root vs ss outs IH] using comp_ind'. intros vid c. rewrite comp_of_vid_eq.
   destruct (find_vertex vs vid); [intros [= <-]; constructor|].
-  intros H. induction ss as [|[e|h sub] r IHr]; cbn in *; [discriminate| |].
-  - inversion IH; subst. destruct (IHr H2 H) as [|]; [constructor|].
-    inversion H0; subst; [constructor|]. econstructor; [right; eassumption|assumption].
-  - inversion IH as [|? ? Hs Hr]; subst. destruct (comp_of_vid sub vid) eqn:C.
-    + injection H as <-. econstructor; [left; reflexivity|]. eapply Hs; eauto.
-    + specialize (IHr Hr H). inversion IHr; subst; [constructor|]. econstructor; [right; eassumption|assumption].
+  assert (K : forall ss', (forall s, In s ss' -> In s ss) ->
+              Forall (fun s => match s with SFold _ sub => forall vid c, comp_of_vid sub vid = Some c -> subcomp c sub
+                                          | SEdge _ => True end) ss' ->
+              comp_of_vid_steps ss' vid = Some c -> subcomp c (mkComp root vs ss outs)).
+  { induction ss' as [|[e|h sub] r IHr]; cbn; intros Hincl HF H; [discriminate| |].
+    - inversion HF as [|? ? _ Hr]; subst. apply IHr; [intros s Hs; apply Hincl; now right|assumption|assumption].
+    - inversion HF as [|? ? Hs Hr]; subst. destruct (comp_of_vid sub vid) eqn:C.
+      + injection H as <-. econstructor; [apply Hincl; left; reflexivity|]. eapply Hs; eauto.
+      + apply IHr; [intros s Hs'; apply Hincl; now right|assumption|assumption]. }
+  apply K; auto.
 Qed.
 
-Theorem no_ge_tag_no_ge_hint re q args vi p dv :
+Theorem no_ge_tag_no_ge_hint q args vi p dv :
   args_wf args -> k_ge_tag_hint q = false ->
   dynamically_required q args vi p = Ok (Some dv) -> dv_op dv <> GreaterThanOrEqual.
 Proof.
   intros Hargs K D E.
   destruct (current_vertex q vi) as [vtx|s] eqn:Hcv.
   2:{ unfold dynamically_required in D. destruct (non_binding vi); [discriminate|]. rewrite Hcv in D. discriminate. }
-  destruct (dynamic_hint_structure re q args Hargs vi p dv vtx D Hcv) as (_ & _ & (f & Hfi & Hfp & Hfo & Hfa & _) & _).
+  destruct (dynamic_hint_structure no_regex q args Hargs vi p dv vtx D Hcv) as (_ & _ & (f & Hfi & Hfp & Hfo & Hfa & _) & _).
   unfold current_vertex, current_component, comp_at in Hcv.
   destruct (comp_of_vid (q_comp q) (vi_vid vi)) as [c|] eqn:C; [|discriminate]. cbn in Hcv.
   apply expect_some_ok in Hcv. apply find_vertex_some in Hcv. destruct Hcv as [Hin _].
@@ -1780,3 +1783,197 @@ Theorem requested_subset_required_count_tag_refuted :
     k_count_filter_tag_not_required q = true /\ k_imported_tag_not_required q = false /\
     has_request (trace_query no_regex (graph_of_dataset ds_f10) [] q) 1 "score" = true.
 Proof. vm_compute. repeat split; reflexivity. Qed.
+
+(* the statement as worded in the property (with the __typename escape) *)
+Theorem requested_subset_required q :
+  wf_hints_query q = true ->
+  k_imported_tag_not_required q = false -> k_count_filter_tag_not_required q = false ->
+  forall r, In r (property_requests q) -> snd r = "__typename" \/ In (snd r) (required_of q (fst r)).
+Proof. intros W K1 K2 r Hr. right. exact (requested_subset_required_outside q W K1 K2 r Hr). Qed.
+
+(* ====================================================================================== *)
+(* Part 8: C05 — the logged interpreter only requests what property_requests lists           *)
+(* ====================================================================================== *)
+Lemma foldM_inv {A S} (f : S -> A -> res S) (P : S -> Prop) l : forall s0 r,
+  (forall s x s', In x l -> P s -> f s x = Ok s' -> P s') -> P s0 -> foldM f l s0 = Ok r -> P r.
+Proof.
+  induction l as [|x l IH]; cbn [foldM]; intros s0 r Hstep H0 H.
+  - injection H as <-. exact H0.
+  - invb H as s1 Hs1. apply (IH s1 r); [|eapply Hstep; eauto; now left|assumption].
+    intros s y s' Hy. apply Hstep. now right.
+Qed.
+
+Definition ev_ok (c : ir_component) (e : event) : Prop :=
+  match e with
+  | EProp v p => In (v, p) (property_requests_comp c)
+  | ENbr _ _ _ _ => True
+  end.
+
+Lemma sub_requests_in_parent root vs ss outs h sub r :
+  In (SFold h sub) ss -> In r (property_requests_comp sub) -> In r (property_requests_comp (mkComp root vs ss outs)).
+Proof.
+  intros Hin Hr. rewrite property_requests_comp_eq. apply in_or_app. right. apply in_or_app. right.
+  induction ss as [|[e|h' sub'] rest IH]; cbn in *; [contradiction| |].
+  - destruct Hin as [E|Hin]; [discriminate|auto].
+  - apply in_or_app. right. apply in_or_app. destruct Hin as [E|Hin]; [left; injection E as -> ->; assumption|right; auto].
+Qed.
+
+Lemma fold_local_in_parent root vs ss outs h sub r :
+  In (SFold h sub) ss -> In r (fold_local_requests vs h) -> In r (property_requests_comp (mkComp root vs ss outs)).
+Proof.
+  intros Hin Hr. rewrite property_requests_comp_eq. apply in_or_app. right. apply in_or_app. right.
+  induction ss as [|[e|h' sub'] rest IH]; cbn in *; [contradiction| |].
+  - destruct Hin as [E|Hin]; [discriminate|auto].
+  - apply in_or_app. destruct Hin as [E|Hin]; [left; injection E as -> ->; assumption|right; apply in_or_app; right; auto].
+Qed.
+
+Lemma vertex_of_In vs vid v : vertex_of vs vid = Ok v -> In v vs.
+Proof. unfold vertex_of. intros H. apply expect_some_ok in H. now apply find_vertex_some in H. Qed.
+
+Section TraceListed.
+  Variable re : string -> string -> option bool.
+  Variable g : graph.
+  Variable args : list (string * fv).
+  Variable q : ir_query.
+
+  Lemma filter_requests_ok root vs ss outs v :
+    In v vs -> Forall (ev_ok (mkComp root vs ss outs)) (filter_requests vs v).
+  Proof.
+    intros Hv. apply Forall_forall. intros e He. unfold filter_requests in He. apply in_flat_map in He.
+    destruct He as (f & Hf & He).
+    assert (K : forall r, In r ((v_vid v, vf_field f) :: tag_request vs (vf_arg f)) ->
+                          In r (property_requests_comp (mkComp root vs ss outs))).
+    { intros r Hr. rewrite property_requests_comp_eq. apply in_or_app. left. unfold filter_requests_of.
+      apply in_flat_map. exists v. split; [assumption|]. apply in_flat_map. exists f. auto. }
+    destruct He as [<-|He]; [apply K; now left|].
+    apply in_map_iff in He. destruct He as (r & <- & Hr). cbn. rewrite <- surjective_pairing. apply K. right.
+    destruct (opk_unary (vf_op f)); [contradiction|assumption].
+  Qed.
+
+  Lemma trace_edge_ok lz root vs ss outs e cs out evs :
+    trace_edge re g args q lz vs ss e cs = Ok (out, evs) -> Forall (ev_ok (mkComp root vs ss outs)) evs.
+  Proof.
+    unfold trace_edge. intros H. invb H as from Hfrom. invb H as to Hto. invb H as r1 Hr1. invb H as o Ho.
+    injection H as _ <-. apply Forall_app. split.
+    - destruct (e_rec e) as [r|].
+      + invb Hr1 as cs0 Hcs0. destruct (trace_rounds g args q lz _ _ _ _ _ e _) as [cs2 evs2] eqn:T.
+        invb Hr1 as o2 Ho2. injection Hr1 as <-. cbn [snd]. constructor; [exact I|].
+        clear - T. revert T. generalize 2 at 1.
+        generalize (one_recursive_expansion g (v_type from) e cs0). generalize (N.to_nat (r_depth r) - 1)%nat.
+        intros k. revert cs2 evs2. induction k as [|k IH]; intros cs2 evs2 l lvl T; cbn in T.
+        * injection T as _ <-. constructor.
+        * destruct (trace_rounds g args q lz k _ _ _ _ e _) as [o' e'] eqn:T'. injection T as _ <-.
+          constructor; [exact I|]. eapply IH; eauto.
+      + invb Hr1 as cs1 Hcs1. invb Hr1 as o2 Ho2. injection Hr1 as <-. cbn. constructor; [exact I|constructor].
+    - apply filter_requests_ok. eapply vertex_of_In; eauto.
+  Qed.
+
+  Lemma trace_fold_ok lz root vs ss outs h sub sub_trace cs out evs :
+    In (SFold h sub) ss ->
+    (forall lz' cs' o l, sub_trace lz' cs' = Ok (o, l) -> Forall (ev_ok sub) l) ->
+    trace_fold re g args q lz vs ss h sub sub_trace cs = Ok (out, evs) ->
+    Forall (ev_ok (mkComp root vs ss outs)) evs.
+  Proof.
+    intros Hin Hsub H. unfold trace_fold in H.
+    invb H as from Hfrom. invb H as cs1 Hcs1. invb H as cs2 Hcs2. invb H as maxl Hmaxl. invb H as minl0 Hminl0.
+    invb H as r3 Hr3. invb H as cs4 Hcs4. invb H as cs5 Hcs5. injection H as _ <-.
+    assert (Up : forall l, Forall (ev_ok sub) l -> Forall (ev_ok (mkComp root vs ss outs)) l).
+    { intros l Hl. eapply Forall_impl; [|exact Hl]. intros [v p|? ? ? ?]; cbn; [|auto].
+      now apply (sub_requests_in_parent root vs ss outs h sub). }
+    apply Forall_app. split.
+    { apply Forall_forall. intros e He. apply in_map_iff in He. destruct He as (r & <- & Hr). cbn.
+      rewrite <- surjective_pairing. eapply (fold_local_in_parent root vs ss outs h sub); eauto. unfold fold_local_requests.
+      apply in_or_app. now left. }
+    constructor; [exact I|]. apply Forall_app. split.
+    { refine (foldM_inv _ (fun acc => Forall (ev_ok (mkComp root vs ss outs)) (snd acc)) _ _ _ _ _ Hr3); [|constructor].
+      intros acc c acc' _ Hacc Hstep. invb Hstep as computed Hcomp. invb Hstep as ov Hov.
+      destruct computed as [o l]. apply Hsub in Hcomp. apply Up in Hcomp.
+      destruct (match ov with Some _ => _ | None => _ end) as [fe|].
+      - destruct (has_key_N (fo_eid h) (folded_contexts c)); [discriminate|]. injection Hstep as <-. cbn [snd].
+        apply Forall_app. auto.
+      - injection Hstep as <-. cbn [snd]. apply Forall_app. auto. }
+    apply Forall_app. split.
+    { apply Forall_forall. intros e He. apply in_flat_map in He. destruct He as (pf & Hpf & He).
+      apply in_map_iff in He. destruct He as (r & <- & Hr). cbn. rewrite <- surjective_pairing.
+      eapply (fold_local_in_parent root vs ss outs h sub); eauto. unfold fold_local_requests. apply in_or_app. right.
+      apply in_flat_map. exists pf. split; [assumption|]. destruct (opk_unary (pf_op pf)); [contradiction|assumption]. }
+    match goal with |- context [existsb ?f cs4] => destruct (existsb f cs4) end; [|constructor].
+    apply Up. apply Forall_forall. intros e He. apply in_map_iff in He. destruct He as (o & <- & Ho). cbn.
+    destruct sub as [r' vs' ss' outs']. rewrite property_requests_comp_eq. apply in_or_app. right. apply in_or_app. left.
+    unfold output_requests_of. cbn [c_outputs] in Ho. now apply in_map with (f := fun o : string * ctxfield => (cf_vid (snd o), cf_name (snd o))).
+  Qed.
+
+  Lemma trace_component_eq lz root vs ss outs cs :
+    trace_component re g args q lz (mkComp root vs ss outs) cs =
+    (do rootv <- vertex_of vs root;
+     do cs0 <- enter_vertex re g args vs ss rootv cs;
+     trace_go re g args q lz vs ss (fun sub lz' cs' => trace_component re g args q lz' sub cs') ss cs0
+              (filter_requests vs rootv)).
+  Proof. reflexivity. Qed.
+
+  (* every resolve_property call of the logged interpreter is in the static list *)
+  Theorem trace_requests_listed : forall c lz cs out log,
+    trace_component re g args q lz c cs = Ok (out, log) -> Forall (ev_ok c) log.
+  Proof.
+    induction c as [root vs ss outs IH] using comp_ind'. intros lz cs out log H.
+    rewrite trace_component_eq in H. invb H as rootv Hrootv. invb H as cs0 Hcs0.
+    assert (K : forall todo, (forall s, In s todo -> In s ss) ->
+                forall cs1 log1 out1 logr, Forall (ev_ok (mkComp root vs ss outs)) log1 ->
+                  trace_go re g args q lz vs ss (fun sub lz' cs' => trace_component re g args q lz' sub cs')
+                           todo cs1 log1 = Ok (out1, logr) ->
+                  Forall (ev_ok (mkComp root vs ss outs)) logr).
+    { induction todo as [|[e|h sub] r IHr]; intros Hincl cs1 log1 out1 logr Hl Hgo; cbn [trace_go] in Hgo.
+      - injection Hgo as _ <-. exact Hl.
+      - invb Hgo as x Hx. destruct x as [o evs].
+        eapply (IHr (fun s Hs => Hincl s (or_intror Hs))); [|exact Hgo]. cbn [fst snd]. apply Forall_app. split; [exact Hl|].
+        eapply trace_edge_ok; eauto.
+      - invb Hgo as x Hx. destruct x as [o evs].
+        eapply (IHr (fun s Hs => Hincl s (or_intror Hs))); [|exact Hgo]. cbn [fst snd]. apply Forall_app. split; [exact Hl|].
+        eapply trace_fold_ok; [apply Hincl; now left| |exact Hx].
+        intros lz' cs' o' l' Hs. rewrite Forall_forall in IH. exact (IH (SFold h sub) (Hincl _ (or_introl eq_refl)) lz' cs' o' l' Hs). }
+    eapply (K ss (fun s Hs => Hs)); [|exact H]. apply filter_requests_ok. eapply vertex_of_In; eauto.
+  Qed.
+
+  Theorem trace_query_requests_listed rows evs :
+    trace_query re g args q = Ok (rows, evs) ->
+    forall v p, In (EProp v p) evs -> In (v, p) (property_requests q).
+  Proof.
+    unfold trace_query. intros H v p Hin. invb H as x Hx. invb H as rws Hrws. injection H as _ <-.
+    destruct x as [o l]. apply trace_requests_listed in Hx. cbn [snd] in Hin. apply in_app_or in Hin.
+    destruct Hin as [Hin|Hin].
+    - rewrite Forall_forall in Hx. exact (Hx _ Hin).
+    - apply in_map_iff in Hin. destruct Hin as (o' & E & Ho). injection E as <- <-. unfold property_requests.
+      destruct (q_comp q) as [r' vs' ss' outs']. rewrite property_requests_comp_eq. apply in_or_app. right.
+      apply in_or_app. left. unfold output_requests_of. cbn [c_outputs] in Ho.
+      now apply in_map with (f := fun o : string * ctxfield => (cf_vid (snd o), cf_name (snd o))).
+  Qed.
+End TraceListed.
+
+(* C05 for runs: outside the F11 classes every resolve_property call of a (logged) run is listed *)
+Theorem run_requests_required re g args q rows evs :
+  wf_hints_query q = true ->
+  k_imported_tag_not_required q = false -> k_count_filter_tag_not_required q = false ->
+  trace_query re g args q = Ok (rows, evs) ->
+  forall v p, In (EProp v p) evs -> In p (required_of q v).
+Proof.
+  intros W K1 K2 H v p Hin.
+  exact (requested_subset_required_outside q W K1 K2 (v, p) (trace_query_requests_listed re g args q rows evs H v p Hin)).
+Qed.
+
+(* the list-recursive take used by the logged interpreter is firstn (Z.to_nat m), i.e. the logged
+   interpreter's collect_fold_elements_z is execution.rs::collect_fold_elements as modelled in Exec.v *)
+Lemma take_zl_firstn {A} (l : list A) : forall m, take_zl m l = firstn (Z.to_nat m) l.
+Proof.
+  induction l as [|x l IH]; intros m; cbn [take_zl].
+  - now destruct (Z.to_nat m).
+  - destruct (0 <? m)%Z eqn:E.
+    + apply Z.ltb_lt in E. replace (Z.to_nat m) with (S (Z.to_nat (m - 1))) by lia. cbn. now rewrite IH.
+    + apply Z.ltb_ge in E. replace (Z.to_nat m) with 0%nat by lia. reflexivity.
+Qed.
+Lemma collect_fold_elements_z_spec {A} (l : list A) maxl minl :
+  collect_fold_elements_z l maxl minl =
+  match maxl with
+  | Some m => if Z.ltb m (Z.of_nat (List.length l)) then None else Some l
+  | None => match minl with Some m => Some (firstn (Z.to_nat m) l) | None => Some l end
+  end.
+Proof. unfold collect_fold_elements_z. destruct maxl, minl; try reflexivity. now rewrite take_zl_firstn. Qed.
